@@ -3,7 +3,7 @@ NEXT Next
 CONSTANTS
   BlockSize = 2
   ResetFreeOnClear = TRUE
-  Dims <- Dims3x3
+  Dims <- DimsMedium
   NSparse = 2
   NDense = 1
   MaxDepth = 6
